@@ -26,16 +26,9 @@ def warmup():
     import adsg_core
     REPO = os.path.dirname(os.path.dirname(os.path.abspath(adsg_core.__file__)))
     import adsg_core.optimization.graph_processor  # noqa
-    import adsg_core.optimization.assign_enc.selector as sel
-    from simkit import gen_settings
     simenv.setup(REPO)
     simenv.install_limiter()
-    with simenv.RunEnv(1):
-        s, _ = gen_settings.build({'src': [{'conns': [1, 2], 'rep': False}],
-                                   'tgt': [{'conns': [0, 1], 'rep': False}, {'conns': [0, 1], 'rep': False}],
-                                   'excluded': [], 'patterns': None})
-        sel.EncoderSelector(s).get_best_assignment_manager(cache=False)
-    simenv.reset()
+    simenv.reset()  # no connection choices are generated here: the numba kernels are not needed, the image stays small
     return {'interrupt_type_injected': 'SystemError (probed from the real limiter by C19 / E1)'}
 
 
